@@ -285,7 +285,9 @@ pub fn random_line_tokens(rng: &mut Rng) -> Vec<Vec<u8>> {
                 // the longest lines the grammar allows: dotted tails push a TCP6 line to 107 bytes
                 let long = |g: [u16; 8]| format!("{:04x}:{:04x}:{:04x}:{:04x}:{:04x}:{:04x}:{}.{}.{}.{}", g[0], g[1], g[2], g[3], g[4], g[5], 200 + (g[6] % 56), 100 + (g[6] >> 8) % 100, 100 + (g[7] & 0xff) % 100, 255);
                 let ports = *rng.pick(&[("65535", "65535"), ("65535", "6553"), ("10000", "20000")]);
-                return vec![t("PROXY"), t(" "), t("TCP6"), t(" "), long(a).into_bytes(), t(" "), long(b).into_bytes(), t(" "),
+                // two such addresses do not fit into 107 bytes: one side long, the other rendered freely
+                let (src, dst) = if rng.chance(1, 2) { (long(a), render_ipv6(b, rng)) } else { (render_ipv6(a, rng), long(b)) };
+                return vec![t("PROXY"), t(" "), t("TCP6"), t(" "), src.into_bytes(), t(" "), dst.into_bytes(), t(" "),
                             t(ports.0), t(" "), t(ports.1), t("\r"), t("\n")];
             }
             vec![
